@@ -20,6 +20,7 @@ int main(int argc, char **argv) {
             const std::string &op = req.at("op").as_str();
             if (op == "run") resp = hv::handle_run(req);
             else if (op == "batch") resp = hv::handle_batch(req);
+            else if (op == "rr") resp = hv::handle_rr(req);
             else if (op == "sched_unit") resp = hv::handle_sched_unit(req);
             else if (op == "resolve") resp = hv::handle_resolve(req);
             else if (op == "realtime") resp = hv::handle_realtime(req);
